@@ -50,6 +50,7 @@ func init() {
 			{"transfer-log-on-halt", "storeBlock turns notifications into transfer-log entries only behind the VMState == Halt test", ruleTransferLogOnHalt},
 			{"scopeless-loader", "a frame loaded inside the execution closure by a function that opens no rollback scope for it (no private DAO layer, no unload callback) gets flags whose upper bound contains neither WriteStates nor AllowNotify: otherwise what it writes survives when it throws and an outer frame catches", ruleScopelessLoader},
 			{"vm-bytes-retained", "a system call or native method that keeps bytes taken from a VM item beyond the call (iterator, struct, map) clones them first: a Buffer stays writable by the contract", func(c *Ctx) { ruleVMBytesRetained(c, "pkg/core/interop/storage", "pkg/core/interop/runtime", "pkg/core/interop/contract", "pkg/core/interop/iterator", "pkg/core/interop/crypto", "pkg/core/native", "pkg/core/interop") }},
+			{"publish-atomic", "all private layers given to one PersistPrivate call (the block and its state changes) are merged inside one critical section of the store: the lock is taken before the loop over the layers and released after it", rulePublishAtomic},
 			{"tx-commit-guard", "the per-transaction DAO layer is persisted only on the non-fault branch, it is the private layer of a context created for that transaction, and OnPersist/PostPersist persist only after a successful Exec", ruleTxCommitGuard},
 			{"unload-rollback", "the unload callback of a wrapped call persists only on commit, cuts notifications back and restores the base DAO layer on every exit; baselines are captured before the callee is loaded; the VM passes commit = no uncaught exception; ContractHasTryBlock scans every handler of every frame", ruleUnloadRollback},
 			{"exec-confinement", "in the execution closure no store targets a package-level variable or a native contract object: everything an execution writes lives in a layer that is dropped on FAULT / caught exception", ruleExecConfinement},
@@ -99,6 +100,7 @@ func init() {
 			{"gc-from-persisted", "every collector tryRunGC starts gets a target derived from the persisted height, never from the in-memory block height", ruleGCFromPersisted},
 			{"cache-latest", "whatever fills the RoleManagement cache from storage asks for the newest record (MaxUint32), never for the record in force at the current height: a rebuilt cache equals the cache of the node that executed the designating block", ruleCacheLatest},
 			{"historic-root", "every opening of a read-only trie store of an earlier root - the reset of the ledger copies contract storage out of its target root this way - uses a mode without the GC flag: the nodes of the target state that later blocks superseded are inactive, not gone", ruleHistoricRoot},
+			{"publish-atomic", "all private layers given to one PersistPrivate call (the block and its state changes) are merged inside one critical section of the store: the lock is taken before the loop over the layers and released after it", rulePublishAtomic},
 			{"stage-machine", "reset and jump are well-formed stage machines: unknown stage is an error; each stage ends by recording the label of the next clause as its last write and persists that layer before falling through; no value captured before the switch from a field a stage changes is used after that stage; the tail removes the marker; start-up resumes from it", ruleStageMachine},
 			{"cache-init", "a node reopened after a crash rebuilds every native cache field from storage and raises the in-memory dirty flags that have no storage record (votesChanged), so the blocks that follow give the same state roots as on a node that never stopped", ruleCacheInit},
 			{"resume-path", "no stage deletes data that Blockchain.init reads before it dispatches on the stage marker, and in-memory module state established inside one stage clause is also established on the common path (so a run resumed from a later stage has it)", ruleResumePath},
@@ -246,6 +248,7 @@ func init() {
 			{"seek-snapshot-atomic", "a range scan that merges a snapshot of the cache with a scan of the lower store starts the lower scan inside the critical section in which the snapshot was taken (known finding: it does not)", ruleSeekSnapshotAtomic},
 			{"vm-bytes-retained", "a system call or native method that keeps bytes taken from a VM item beyond the call (iterator, struct, map) clones them first: a Buffer stays writable by the contract", func(c *Ctx) { ruleVMBytesRetained(c, "pkg/core/interop/storage", "pkg/core/interop/runtime", "pkg/core/interop/contract", "pkg/core/interop/iterator", "pkg/core/interop/crypto", "pkg/core/native", "pkg/core/interop") }},
 			{"flag-guarded-value", "a cursor variable that travels with a validity flag is read only where the flag is known to be true: after the flag went false the variable still holds the element consumed last", func(c *Ctx) { ruleFlagGuardedValue(c, "pkg/core/storage") }},
+			{"publish-atomic", "all private layers given to one PersistPrivate call (the block and its state changes) are merged inside one critical section of the store: the lock is taken before the loop over the layers and released after it", rulePublishAtomic},
 			{"lock-pairing", "in pkg/core/storage every mutex acquired is released on every exit (conditional wrappers analysed for shared stores; the isSync-correlated unlock/relock of persist included)", func(c *Ctx) { lockPairingPkgs(c, []string{stPkg}, storageAssume, 10) }},
 			{"lockset", "every access of mem/stor/ps of a shared MemoryStore/MemCachedStore happens under the store's mutex (write lock for writes) or in a caller-holds-lock function whose call sites hold it; a function that reads a cache map and ps for one answer does so in one critical section; seek gets matching lockers", ruleStoreLockset},
 			{"swap-order", "persist replaces mem/stor/ps only under the write lock inside the plock bracket, installs the tempstore before the lower write, restores ps only after it returned, and merges concurrent writes into both old maps on failure", ruleSwapOrder},
